@@ -147,6 +147,15 @@ def Code.withoutReleaseCall (c : Code) : Code := { c with fail := c.fail.filter 
 def Code.withoutFlagSet (c : Code) : Code := { c with ctor := c.ctor.filter (· != .simple (.setFlag true)) }
 def Code.withoutFlagClear (c : Code) : Code := { c with dtor := c.dtor.filter (· != .simple (.setFlag false)) }
 
+/-- `fail` with the failure recorded BEFORE the lock is given back and the test left afterwards
+    (`addFailure(..); releaseBeforeFailing(); exitCurrentTest();`): indistinguishable with an output that
+    does not allocate, a self-deadlock with one that does -/
+def Code.recordBeforeRelease (c : Code) : Code :=
+  { c with fail := [.other, .addFailure, .releaseBeforeFailing, .exitCurrentTest] }
+
+/-- the output of `-ojunit` with the thread-safe overloads on: `printFailure` allocates through the locked wrapper -/
+def Out.junitThreadSafe : Out := { alloc := true, locked := true }
+
 
 /-! ## ownership discipline of a schedule (no detector involved)
 
